@@ -40,11 +40,10 @@ CLAIMED = {
    note="Clique-tree validity, running intersection, coverage, merge strategies are IndexSet/HashMap based and NOT decided." + _TB, design="DESIGN.md §3 C17, §6"),
  "C18": dict(text=_KANI + "Decides ONLY the index kernels of the decomposition: triangular index maps (all indices < 2^32), sub-block map, parent block indices, row subsets, alternating/extra-column sequences, overlap counting.",
    note="find_compact_A_b_and_cones, reversal, psd_complete (HashMap/LAPACK) and end-to-end equivalence are NOT decided." + _TB, design="DESIGN.md §3 C18, §6"),
- "C20": dict(text=_KANI + "Decides that with verbose off none of the print entry points writes a byte for any solver state, and that bytes written to buffer/stream/sink targets are routed unchanged and in order.",
-   note="Everything that formats numbers (progress table, footer, header) and file/stdout targets: NOT decided." + _TB, design="DESIGN.md §3 C20, §6"),
 }
 
 NOT_APPLICABLE = {
+ "C20": "every print entry point and even the PrintTarget Write impl pull the std formatting / stdout / file machinery (float-to-decimal tables, io::Error's bit-packed representation) into the goto program: CBMC exceeds 25 GB before symbolic execution gets anywhere, also with std::fmt::write and std::fmt::format stubbed (harness kept in kani/src/c20.rs for reference); nothing smaller stands for the property",
  "C06": "distributional claim (>=99.5% Solved, p95 iteration envelope) over whole interior-point runs: a solver verdict is not a frequency and the floating-point iteration has no bounded symbolic encoding within reach",
  "C19": "serde_json serialisation/parsing is string processing with input-length loops and decimal<->binary float conversion; neither Kani nor an SMT encoding of its MIR gets through it at a useful bound",
 }
@@ -89,6 +88,6 @@ def main():
     }
     json.dump(m, open(os.path.join(V, "MANIFEST.json"), "w"), indent=1)
 
-HOOK_COMMITS = ["dc24f71", "7b630f7", "7afaea3"]
+HOOK_COMMITS = ["dc24f71", "7b630f7", "7afaea3", "096dc4a", "f4bae9a"]
 if __name__ == "__main__":
     main()
